@@ -16,12 +16,15 @@ for f in sorted(glob.glob('/verif/seeded/*/meta.json')):
     rows.append((m['seed'], m['property_targeted'], files, q, th, tgt))
 out = []
 out.append(f"{len(rows)-2} changes written by sub-agents that were given only the text of one property and a scratch worktree")
-out.append("(rounds 1 and 2: two changes per property and round, suffixes -1..-4; round 3, suffixes -5/-6: eight agents asked for *deep* changes")
-out.append("that need at least 5 operations, 4 actors or 3 keys/members) plus the reverse patches of the two `fix:` commits.")
+out.append("(rounds 1 and 2: two changes per property and round, suffixes -1..-4; round 3, suffixes -5/-6 of C01, C03, C05, C08, C09, C12, C20:")
+out.append("eight agents asked for *deep* changes that need at least 5 operations, 4 actors or 3 keys/members; round 4, second session,")
+out.append("the 28 seeds that carry a `round` file - C02, C04, C06, C07 (three), C10, C11, C13-C19 with suffixes -5/-6 and C12-7: fourteen agents")
+out.append("asked for deep changes again, also accepting a particular interleaving, merge order, save point or unusual legal input)")
+out.append("plus the reverse patches of the two `fix:` commits.")
 out.append("Every one was re-confirmed by me with `seeded/confirm.sh` (demo exits 0 on the unchanged tree and non-zero")
 out.append("with the change; the pinned 132-test baseline passes twice with the change): logs in `seeded/logs/`.")
-out.append("Sweeps: `seeded/run_all.sh <tier>` (frozen copy of /verif; the patch is applied to a scratch copy of /repo,")
-out.append("never to /repo).  `detected by (quick)` lists every property whose quick check exits 1 with a VIOLATION line;")
+out.append("Sweeps: `seeded/run_all.sh <tier>` / `seeded/run_par.sh <tier> <workers> <seeds>` (frozen copy of /verif; the patch is applied to a")
+out.append("scratch copy of /repo, never to /repo).  `detected by (quick)` lists every property whose quick check exits 1 with a VIOLATION line;")
 out.append("the thorough column is filled only where a thorough run was made for that seed (target property).")
 out.append("")
 out.append("| seed | target | file(s) changed | detected by (quick) | detected by (thorough, if run) | target property catches it |")
@@ -34,15 +37,23 @@ nth = sum(1 for r in rows if r[5] in ('quick', 'thorough'))
 out.append("")
 out.append(f"Totals: {len(rows)} seeds; {nq} raise a violation in at least one quick check; {nt} are caught by the quick check of the very property they were written against, {nth} by its quick or thorough check.")
 out.append("")
-out.append("**Reading the table.**  Every seed is caught by at least one check (93 of 96 in the quick tier, the other three —")
-out.append("C05-6, C09-5, C09-6, all from the *deep* round — by the thorough check of their own property).  Eight deep seeds are")
-out.append("not caught by the property they were written against even in the thorough tier: C01-6, C05-5, C08-5, C20-5 (a pending")
-out.append("nested remove lost by `Orswot::reset_remove`, 5 ops) and C08-6, C20-6 (the same in `Map::reset_remove`, 5-6 ops, 4 actors,")
-out.append("an inner `read_ctx()` remove) lie beyond the history bound of C01/C05/C08/C20 (Map systems with merges: n<=4) but are")
-out.append("caught in the quick tier by C18, which applies `reset_remove` with every grid clock to every reachable state and so")
-out.append("does not need the fifth op; C12-5 and C12-6 misplace a newly inserted element consistently at every replica (their")
-out.append("author says so), which violates C13/C14 (both catch them), not C12.  Seed C20-3 was the one masked by a listed core;")
+missed_q = [r[0] for r in rows if r[3] == '—']
+not_target = [r[0] for r in rows if r[5] not in ('quick', 'thorough')]
+out.append("**Reading the table.**  Every seed is caught by at least one check; not caught in the quick tier by any check: " + (', '.join(missed_q) or 'none') + " (caught by the")
+out.append("thorough check of their own property).  Not caught by the property they were written against in either tier: " + (', '.join(not_target) or 'none') + ".")
+out.append("Of these, C08-6 and C20-6 (a pending key remove lost by the *nested* `Map::reset_remove`, 5-6 ops, 4 actors, an inner `read_ctx()` remove) lie beyond")
+out.append("the bounds of C08/C20 on M-M-OR (n<=4) and are caught in the quick tier by C18, which applies `reset_remove` with every grid clock to every")
+out.append("reachable state and so does not need the fifth op; C12-5 and C12-6 misplace a newly inserted element consistently at every replica (their")
+out.append("author says so), which violates C13/C14 (both catch them), not C12.  The Orswot-side variants of the lost pending remove (C01-6, C05-5, C08-5,")
+out.append("C20-5) were in that list after the first session; the 5-op full-alphabet and nested-`add_all` configurations of the second session (thorough tier)")
+out.append("were added for them - see the thorough column.  Seed C20-3 was the one masked by a listed core;")
 out.append("it is what motivated the golden failing-sets (§3.6) and is now caught by C20 (thorough) and C18 (quick).")
+out.append("Round 4: the first sweep (before any strengthening) missed two of the 28 new seeds in the quick tier - C14-5 (`between` descending under the")
+out.append("*last* node of `high` instead of the node right below the fork: the quick depth-3 sub-grid had no rational a whole unit away; widened) and C17-5")
+out.append("(`Map::validate_merge` gated on the *map* clocks: needs 5 ops with one key; the one-key 5-op misuse configuration is now in both tiers) - and C11-6")
+out.append("(a carry weighted `u64::MAX` instead of 2^64 in `GCounter::read`) was caught only because the 2^63-step alphabet had been added while the agents were")
+out.append("still writing (it would have been missed by the first-session alphabets, whose steps are 1 and 2).  `seeded/logs/sweep_quick_round4_first.log`")
+out.append("is that first sweep, `sweep_quick_round4_final.log` the sweep at the final harness.")
 out.append("")
 out.append("**False-alarm test.** 15 behaviour-preserving refactorings (`seeded/benign/R*-*`, written by five sub-agents asked for")
 out.append("observably equivalent rewrites of orswot.rs/vclock.rs, map.rs, mvreg.rs + counters, list/glist/identifier/dot, merkle_reg/ctx/serde)")
